@@ -231,19 +231,33 @@ typedef struct { int st; long nb; long rows; uint64_t dg; uint64_t col[PAR_MAXCO
 
 /* st: final status of carquet_batch_reader_next (CARQUET_ERROR_END_OF_DATA when all is well),
  * -1 open failed, -2 batch reader create failed */
-static void read_all(const char* path, const uint8_t* buf, long buflen, int mode, int nt, long bs, int cols, par_result* r) {
-    memset(r, 0, sizeof *r); r->dg = FNV0;
-    for (int c = 0; c < PAR_MAXCOLS; c++) r->col[c] = FNV0;
+/* a reader handle whose open, read and close can be placed anywhere in a history of several handles (op par_life) */
+typedef struct { carquet_reader_t* rd; int mode, nt, cols; long bs; } life_handle;
+static void life_open(life_handle* L, const char* path, const uint8_t* buf, long buflen, int mode, int nt, long bs, int cols) {
     carquet_error_t err = CARQUET_ERROR_INIT;
     carquet_reader_options_t ro; carquet_reader_options_init(&ro);
     ro.use_mmap = (mode == 1);
-    carquet_reader_t* rd = mode == 2 ? carquet_reader_open_buffer(buf, (size_t)buflen, &ro, &err)
-                                     : carquet_reader_open(path, &ro, &err);
+    L->mode = mode; L->nt = nt; L->bs = bs; L->cols = cols;
+    L->rd = mode == 2 ? carquet_reader_open_buffer(buf, (size_t)buflen, &ro, &err) : carquet_reader_open(path, &ro, &err);
+}
+static void life_read(life_handle* L, par_result* r);
+static void life_close(life_handle* L) { if (L->rd) carquet_reader_close(L->rd); L->rd = NULL; }
+static void read_all(const char* path, const uint8_t* buf, long buflen, int mode, int nt, long bs, int cols, par_result* r) {
+    life_handle L; life_open(&L, path, buf, buflen, mode, nt, bs, cols);
+    life_read(&L, r);
+    life_close(&L);
+}
+static void life_read(life_handle* L, par_result* r) {
+    int mode = L->mode, nt = L->nt, cols = L->cols; long bs = L->bs;
+    memset(r, 0, sizeof *r); r->dg = FNV0;
+    for (int c = 0; c < PAR_MAXCOLS; c++) r->col[c] = FNV0;
+    carquet_error_t err = CARQUET_ERROR_INIT;
+    carquet_reader_t* rd = L->rd;
     if (!rd) { r->st = -1; return; }
     carquet_batch_reader_config_t cfg; carquet_batch_reader_config_init(&cfg);
     cfg.batch_size = bs; cfg.num_threads = nt; cfg.use_mmap = (mode == 1);
     carquet_batch_reader_t* br = carquet_batch_reader_create(rd, &cfg, &err);
-    if (!br) { carquet_reader_close(rd); r->st = -2; return; }
+    if (!br) { life_close(L); r->st = -2; return; }
     for (;;) {
         carquet_row_batch_t* batch = NULL;
         carquet_status_t st = carquet_batch_reader_next(br, &batch);
@@ -275,7 +289,6 @@ static void read_all(const char* path, const uint8_t* buf, long buflen, int mode
         carquet_row_batch_free(batch);
     }
     carquet_batch_reader_free(br);
-    carquet_reader_close(rd);
 }
 
 static int content_ok(const par_result* r, int cols) {
@@ -419,6 +432,42 @@ static void do_par_indep(hctx* h, uint64_t fseed, int codec, long rows, int cols
     print_trace(h->out, "tr");
     fprintf(h->out, " p_same_as_alone=%d\n", same);
     h->n_lines++; st_ev_fread += g_nev; st_lines_multi++;
+    free(buf);
+}
+
+/* ------------------------------------------------------------------ op: par_life */
+/* Handles with overlapping lifetimes: A is opened, B is opened, A is closed, THEN B is read (and the other orders).  What
+ * one handle does when it is opened or closed - descriptors, mappings, shared tables - must not reach into another handle:
+ * B returns what it returns alone.  Single-threaded on purpose: the order is the schedule. */
+static void do_par_life(hctx* h, uint64_t fseed, int codec, long rows, int cols, int ma, int mb, int order, long bs) {
+    fprintf(h->out, "par_life fseed=%llu codec=%d rows=%ld cols=%d ma=%d mb=%d order=%d bs=%ld",
+            (unsigned long long)fseed, codec, rows, cols, ma, mb, order, bs);
+    h_call(h);
+    int mk = make_file(fseed, codec, rows, cols);
+    if (mk) { fprintf(h->out, " | mk=%d triv=1\n", mk); h->n_lines++; return; }
+    long blen = 0; uint8_t* buf = slurp(g_file.path, &blen);
+    par_result refa = *reference(buf, blen, ma, bs), refb = *reference(buf, blen, mb, bs);
+    par_result ra, rb; memset(&ra, 0, sizeof ra); memset(&rb, 0, sizeof rb); ra.st = refa.st; ra.dg = refa.dg; ra.nb = refa.nb;
+    life_handle A, B, C;
+    switch (order) {
+    case 0:  /* open A, open B, close A, read B */
+        life_open(&A, g_file.path, buf, blen, ma, 1, bs, cols); life_open(&B, g_file.path, buf, blen, mb, 1, bs, cols);
+        life_close(&A); life_read(&B, &rb); life_close(&B); break;
+    case 1:  /* open A, open B, close A, open C (takes what A released), close C, read B */
+        life_open(&A, g_file.path, buf, blen, ma, 1, bs, cols); life_open(&B, g_file.path, buf, blen, mb, 1, bs, cols);
+        life_close(&A); life_open(&C, g_file.path, buf, blen, mb, 1, bs, cols); life_close(&C); life_read(&B, &rb); life_close(&B); break;
+    case 2:  /* open A, read A, open B, close A, read B */
+        life_open(&A, g_file.path, buf, blen, ma, 1, bs, cols); life_read(&A, &ra); life_open(&B, g_file.path, buf, blen, mb, 1, bs, cols);
+        life_close(&A); life_read(&B, &rb); life_close(&B); break;
+    default: /* open B, open A, read B half-way is not expressible here: open B, open A, close A, read B, then A again from scratch */
+        life_open(&B, g_file.path, buf, blen, mb, 1, bs, cols); life_open(&A, g_file.path, buf, blen, ma, 1, bs, cols);
+        life_close(&A); life_read(&B, &rb); life_close(&B);
+        life_open(&A, g_file.path, buf, blen, ma, 1, bs, cols); life_read(&A, &ra); life_close(&A); break;
+    }
+    int same = rb.st == refb.st && rb.dg == refb.dg && rb.nb == refb.nb && ra.st == refa.st && ra.dg == refa.dg && ra.nb == refa.nb;
+    fprintf(h->out, " | sta=%d stb=%d dgb=%llu ref_stb=%d ref_dgb=%llu p_same_as_alone=%d\n", ra.st, rb.st, (unsigned long long)rb.dg,
+            refb.st, (unsigned long long)refb.dg, same);
+    h->n_lines++;
     free(buf);
 }
 
@@ -653,6 +702,9 @@ static void gen_par(hctx* h) {
                 do_par_indep(h, fseed, codec, rows, cols, mode, 4 + (int)h_below(h, 5), 1, bs, 1 + h_below(h, 1u << 30));
                 if (!pth_only && (h->thorough || mode == 0)) do_par_indep(h, fseed, codec, rows, cols, mode, 3, 2, bs, 1 + h_below(h, 1u << 30));
             }
+            /* handles with overlapping lifetimes, every pair of modes */
+            for (int ma = 0; ma < 3; ma++) for (int mb = 0; mb < 3; mb++)
+                do_par_life(h, fseed, codec, rows, cols, ma, mb, (ma * 3 + mb + ci) % 4, bs);
             /* a failing column among intact ones */
             if (!pth_only) for (int ti = 1; ti < 5; ti++)
                 for (int rep = 0; rep < (h->thorough ? 6 : 3); rep++)
@@ -688,6 +740,7 @@ static int replay_par(hctx* h, const h_line* l) {
     long rows = (long)h_ll(h_in(l, "rows")), bs = (long)h_ll(h_in(l, "bs"));
     if (!strcmp(l->op, "par_read")) { do_par_read(h, fseed, codec, rows, cols, mode, nt, bs, sched); drop_file(); return 1; }
     if (!strcmp(l->op, "par_bad")) { do_par_bad(h, fseed, codec, rows, cols, mode, nt, bs, sched); drop_file(); return 1; }
+    if (!strcmp(l->op, "par_life")) { do_par_life(h, fseed, codec, rows, cols, (int)h_ll(h_in(l, "ma")), (int)h_ll(h_in(l, "mb")), (int)h_ll(h_in(l, "order")), bs); drop_file(); return 1; }
     if (!strcmp(l->op, "par_nested")) { do_par_nested(h, fseed, codec, rows, cols, mode, nt, bs); drop_file(); return 1; }
     if (!strcmp(l->op, "par_indep")) { do_par_indep(h, fseed, codec, rows, cols, mode, (int)h_ll(h_in(l, "n")), nt, bs, sched); drop_file(); return 1; }
     if (!strcmp(l->op, "par_cold")) { do_par_cold(h, fseed, codec, rows, cols, mode, (int)h_ll(h_in(l, "n")), nt, bs, sched, (int)h_ll(h_in(l, "kind"))); drop_file(); return 1; }
